@@ -10,4 +10,5 @@ GapsV == {0, 20, 330}
 OpeningsV == {<<>>}
 SplitRatiosV == {<<2, 1>>}
 SecsV == {"AAA", "BBB", "CCC"}
+SecsV2 == {"AAA", "BBB"}
 =============================================================================
